@@ -8,6 +8,7 @@ import (
 	"fmt"
 	"math"
 	"os"
+	"reflect"
 )
 
 type replayFile struct {
@@ -126,6 +127,62 @@ func Assert(c bool, label string) {
 }
 
 func Symbolic() bool { return false }
+
+// HavocState: see verifrt_sym.go; leaves missing from the replay file keep their zero value.
+func HavocState(ptr interface{}, name string) {
+	havoc(reflect.ValueOf(ptr).Elem(), name)
+}
+
+func havoc(v reflect.Value, name string) {
+	switch v.Kind() {
+	case reflect.Struct:
+		for i := 0; i < v.NumField(); i++ {
+			havoc(v.Field(i), name+"."+v.Type().Field(i).Name)
+		}
+	case reflect.Array:
+		for i := 0; i < v.Len(); i++ {
+			havoc(v.Index(i), fmt.Sprintf("%s[%d]", name, i))
+		}
+	case reflect.Bool:
+		n := counts[name]
+		counts[name] = n + 1
+		if raw, ok := rf.Inputs[fmt.Sprintf("%s#%d", name, n)]; ok {
+			var b bool
+			if err := json.Unmarshal(raw, &b); err != nil {
+				panic("verifrt: bad bool for " + name)
+			}
+			v.SetBool(b)
+		} else {
+			v.SetBool(false)
+		}
+	case reflect.Int, reflect.Int8, reflect.Int16, reflect.Int32, reflect.Int64:
+		n := counts[name]
+		counts[name] = n + 1
+		var i int64
+		if raw, ok := rf.Inputs[fmt.Sprintf("%s#%d", name, n)]; ok {
+			if err := json.Unmarshal(raw, &i); err != nil {
+				panic("verifrt: bad int for " + name)
+			}
+		}
+		v.SetInt(i)
+	case reflect.Uint, reflect.Uint8, reflect.Uint16, reflect.Uint32, reflect.Uint64:
+		n := counts[name]
+		counts[name] = n + 1
+		var u uint64
+		if raw, ok := rf.Inputs[fmt.Sprintf("%s#%d", name, n)]; ok {
+			if err := json.Unmarshal(raw, &u); err != nil {
+				var i int64
+				if err2 := json.Unmarshal(raw, &i); err2 != nil {
+					panic("verifrt: bad uint for " + name)
+				}
+				u = uint64(i)
+			}
+		}
+		v.SetUint(u)
+	default:
+		panic("verifrt: HavocState cannot fill " + v.Kind().String() + " at " + name)
+	}
+}
 
 // RunReplay executes the harness entry named in $VERIF_REPLAY and prints one line "VERIF-RESULT {json}".
 func RunReplay(fns map[string]func()) {
